@@ -11,7 +11,7 @@ cd /verif
 PROPS="${*:-C03 C06 C11 C12 C13 C14 C15}"
 if ! git -C /repo diff --quiet; then echo "run_preserving: /repo has uncommitted changes, refusing" >&2; exit 2; fi
 if ! git -C /repo apply "$D/patch.diff"; then echo "run_preserving: patch does not apply" >&2; exit 2; fi
-trap 'git -C /repo checkout -- . >/dev/null 2>&1' EXIT
+trap 'git -C /repo checkout -- . >/dev/null 2>&1; git -C /repo clean -fdq >/dev/null 2>&1' EXIT
 for p in $PROPS; do
   out=$(./check "$p" quick 2>&1); code=$?
   echo "== $(basename $D) $p exit=$code"
